@@ -2172,7 +2172,10 @@ func (t *tScreen) disengage() {
 	ti := t.ti
 	t.cells.Resize(0, 0)
 	t.TPuts(ti.ShowCursor)
-	if t.cursorStyles != nil && t.cursorStyle != CursorStyleDefault {
+	if t.cursorStyles != nil {
+		// unconditionally: the style last sent to the terminal may
+		// differ from the one requested since (showCursor sends it,
+		// default included, on every Show)
 		t.TPuts(t.cursorStyles[CursorStyleDefault])
 	}
 	if t.cursorFg != "" && (t.cursorColor.Valid() || t.cursorColor == ColorReset) {
